@@ -129,13 +129,18 @@ def comp_diff(a, b, ignore=()):
 SHARED_ONLY = ("required", "regex")      # Column-only attributes
 
 
-_RE_ATTR = re.compile(r"(?:\]\[1\]|^\$\.index(?:\.indexes\[\d+\])?|^\$)\.(\w+)")
+_RE_ATTRS = [re.compile(r"\]\[1\]\.(\w+)"),
+             re.compile(r"^\$\.index(?:\.indexes\[\d+\])?\.(\w+)"),
+             re.compile(r"^\$\.(\w+)")]
 
 
 def diff_attr(d):
     """Name of the component attribute a fingerprint diff path points into."""
-    m = _RE_ATTR.search(d or "")
-    return m.group(1).lstrip("_") if m else None
+    for rx in _RE_ATTRS:
+        m = rx.search(d or "")
+        if m:
+            return m.group(1).lstrip("_")
+    return None
 
 
 K_PROPS = "column-properties-omit-drop_invalid_rows"
